@@ -520,4 +520,44 @@ Proof.
   inversion H; subst. exact L.
 Qed.
 
+(* ------------------------------------------------------------------ *)
+(* twins: equal parameters (and cache) on two streams with equal content give
+   the same draw and leave the two streams with equal content again - so, by
+   iteration, identical sequences of draws                                 *)
+Theorem twin_draws_equal : forall pv (ins : nat -> option (inst F)) (st : store N) a b ia ib,
+  ins a = Some ia -> ins b = Some ib ->
+  idist ia = idist ib -> icache ia = icache ib ->
+  isid ia <> isid ib -> st (isid ia) = st (isid ib) ->
+  forall w1 m1 w2 m2,
+  step N pv (ins, st) (ODraw a) = (w1, m1) ->
+  step N pv w1 (ODraw b) = (w2, m2) ->
+  m1 = m2 /\
+  snd w2 (isid ia) = snd w2 (isid ib) /\
+  (exists ia' ib', fst w2 a = Some ia' /\ fst w2 b = Some ib' /\
+                   idist ia' = idist ib' /\ icache ia' = icache ib' /\
+                   isid ia' = isid ia /\ isid ib' = isid ib).
+Proof.
+  intros pv ins st a b ia ib Ha Hb Hd Hc Hs Hst w1 m1 w2 m2 S1 S2.
+  assert (Hab : a <> b) by (intros C; subst; rewrite Ha in Hb; inversion Hb; subst; apply Hs; reflexivity).
+  simpl in S1. rewrite Ha in S1. unfold inst_draw in S1.
+  destruct (draw_c N pv (idist ia) (icache ia) (st (isid ia))) as [[r c] rest] eqn:D.
+  inversion S1; subst w1 m1; clear S1.
+  simpl in S2. unfold wupd in S2 at 1. destruct (Nat.eqb b a) eqn:E; [apply Nat.eqb_eq in E; congruence|].
+  rewrite Hb in S2. unfold inst_draw in S2.
+  assert (Hu : upd N st (isid ia) rest (isid ib) = st (isid ib)).
+  { unfold upd. destruct (Nat.eqb (isid ib) (isid ia)) eqn:E2; [apply Nat.eqb_eq in E2; congruence|reflexivity]. }
+  rewrite Hu, <- Hst, <- Hd, <- Hc, D in S2. inversion S2; subst w2 m2; clear S2. simpl.
+  split.
+  - unfold upd. rewrite !Nat.eqb_refl.
+    destruct (Nat.eqb (isid ib) (isid ia)) eqn:E2; [apply Nat.eqb_eq in E2; congruence|].
+    try rewrite <- Hst; reflexivity.
+  - split.
+    + unfold upd. rewrite !Nat.eqb_refl.
+      destruct (Nat.eqb (isid ia) (isid ib)) eqn:E2; [apply Nat.eqb_eq in E2; congruence|]. reflexivity.
+    + exists (mkInst (idist ia) (isid ia) c), (mkInst (idist ib) (isid ib) c).
+      unfold wupd. rewrite Nat.eqb_refl.
+      destruct (Nat.eqb a b) eqn:E3; [apply Nat.eqb_eq in E3; congruence|]. rewrite Nat.eqb_refl.
+      simpl. repeat split; auto. rewrite Hd. reflexivity.
+Qed.
+
 End DrawFramed.
